@@ -25,7 +25,7 @@ let run () = iter_lines (fun line ->
     (* line endings: a document written with CR LF keeps them on every line (the lines outside scrut blocks are preserved byte for
        byte, so their CR as well), one written with LF stays so; "none": a document without any line ending *)
     List.iter (fun f -> if String.length f > 8 && String.sub f 0 8 = "endings=" then begin
-        bump ("line-" ^ f);
+        bump ("line-" ^ f); List.iter (fun g -> if String.length g > 5 && String.sub g 0 5 = "mode=" then bump g) (split_on ' ' info);
         (match split_on '>' (String.sub f 8 (String.length f - 8)) with
          | [o; a; b] -> if (a <> o && a <> "none") || (b <> o && b <> "none") then
              report "SPEC:C10" (Printf.sprintf "the document had %s line endings, after update it has %s (and %s after the second update): lines outside scrut blocks were not preserved byte for byte" o a b) line
